@@ -166,7 +166,7 @@ def worker(pid, infile, outfile):
     try:
         # resolve the anchors' code objects *before* contracts are attached: icontract replaces the methods of a
         # decorated class by wrappers that all share one code object
-        counter = reach.ReachCounter(getattr(mod, "ANCHORS", []))
+        counter = reach.ReachCounter(getattr(mod, "ANCHORS", []), cover_files=cover_files_of(mod))
         if hasattr(mod, "setup"):
             mod.setup()
         counter.start()
@@ -180,9 +180,63 @@ def worker(pid, infile, outfile):
         out.write(dumps(res) + "\n")
         out.flush()
     counter.stop()
-    out.write(dumps({"reach": counter.counts, "unresolved": counter.unresolved}) + "\n")
+    out.write(dumps({"reach": counter.counts, "unresolved": counter.unresolved, "lines": {k: sorted(v) for k, v in counter.lines_hit.items()}}) + "\n")
     out.close()
     return 0
+
+
+def cover_files_of(mod):
+    """Source files whose function bodies get line coverage: the files of the anchors' modules plus mod.COVER (module names)."""
+    import importlib
+    names = {a_.split(":")[0] for a_ in getattr(mod, "ANCHORS", [])} | set(getattr(mod, "COVER", []))
+    files = []
+    for n in sorted(names):
+        try:
+            f = importlib.import_module(n).__file__
+        except Exception:
+            continue
+        if f and f.endswith(".py"):
+            files.append(os.path.realpath(f))
+    return files
+
+
+def line_coverage_report(mod, lines_hit):
+    """Per watched file: executable lines of function bodies, lines reached by this run, and which functions were left
+    (partly) unvisited -- the map of what the workload did not drive."""
+    from vt import reach
+    rep = {}
+    for f in cover_files_of(mod):
+        funcs = reach.function_lines(f)
+        hit = set(lines_hit.get(f, ()))
+        total = sum(len(v) for v in funcs.values())
+        got = sum(len(v & hit) for v in funcs.values())
+        never, partial = [], []
+        for (name, first), ls in sorted(funcs.items(), key=lambda kv: kv[0][1]):
+            miss = sorted(ls - hit)
+            if not miss:
+                continue
+            if len(miss) == len(ls):
+                never.append("%s@%d" % (name, first))
+            else:
+                partial.append("%s@%d: %s" % (name, first, _ranges(miss)))
+        rel = f.split("/pyrex/", 1)[-1] if "/pyrex/" in f else os.path.basename(f)
+        rep["pyrex/" + rel] = {"executable_lines_in_function_bodies": total, "reached": got, "functions_never_entered": never, "functions_partly_reached (unreached lines)": partial}
+    return rep
+
+
+def _ranges(nums):
+    out, start, prev = [], None, None
+    for n in nums:
+        if start is None:
+            start = prev = n
+        elif n == prev + 1:
+            prev = n
+        else:
+            out.append(str(start) if start == prev else "%d-%d" % (start, prev))
+            start = prev = n
+    if start is not None:
+        out.append(str(start) if start == prev else "%d-%d" % (start, prev))
+    return ",".join(out)
 
 
 # ----------------------------------------------------------------------------- main
@@ -292,7 +346,7 @@ def main(argv=None):
                 p.kill()
                 p.communicate()
                 shard_err.append("shard watchdog")
-        results, reach_counts, unresolved, fatal = [], {}, set(), None
+        results, reach_counts, unresolved, fatal, lines_hit = [], {}, set(), None, {}
         for p, outf, n in procs:
             if not os.path.exists(outf):
                 continue
@@ -308,6 +362,8 @@ def main(argv=None):
                         for k, v in r["reach"].items():
                             reach_counts[k] = reach_counts.get(k, 0) + v
                         unresolved.update(r["unresolved"])
+                        for fk, ls in r.get("lines", {}).items():
+                            lines_hit.setdefault(fk, set()).update(ls)
                     else:
                         results.append(r)
     finally:
@@ -397,6 +453,11 @@ def main(argv=None):
         },
         "assumptions": list(getattr(mod, "ASSUMPTIONS", [])),
     }
+    try:
+        if not getattr(mod, "NO_PYREX_IMPORT", False) and not fatal:
+            ev["coverage"]["line_coverage_of_anchor_modules"] = line_coverage_report(mod, lines_hit)
+    except Exception:
+        ev["coverage"]["line_coverage_error"] = traceback.format_exc()[-500:]
     if hasattr(mod, "extra_evidence"):
         try:
             ev["coverage"].update(mod.extra_evidence(results))
@@ -411,6 +472,8 @@ def main(argv=None):
         w = " ".join("%s=%.3g" % kv for kv in sorted(cl["worst"].items()))
         print(f"  class {cname:28s} gen={cl['generated']:5d} decided={cl['decided']:5d} "
               f"nontrivial={cl['nontrivial']:5d} violating={cl['violating']:3d} {w}")
+    for fk, rep_ in ev["coverage"].get("line_coverage_of_anchor_modules", {}).items():
+        print("  lines %s: %d of %d function-body lines reached; %d functions never entered" % (fk, rep_["reached"], rep_["executable_lines_in_function_bodies"], len(rep_["functions_never_entered"])))
     if reach_counts:
         print("  anchors: " + " ".join(f"{k.split(':')[-1]}={v}" for k, v in sorted(reach_counts.items())))
     for k in findings:
